@@ -32,6 +32,7 @@ pub fn info(prop: &str) -> PropInfo {
         "C14" => PropInfo { id: "C14", engine: "e1", rule: "cyclic programs whose block mixes functions without recovery and q_fix; outcome per request: cycle panic (required on a fresh database when the from-scratch DFS re-enters a non-recovering function) or the least-fixpoint value; non-trivial = a cycle panic was observed and later requests succeeded" },
         "C15" => PropInfo { id: "C15", engine: "e1", rule: "fixpoint programs with an input-guarded non-monotone step; guard on => bounded panic or any value, never more than 200 iterations; guard off later => least fixpoint; non-trivial = a non-convergence panic was observed" },
         "C26" => PropInfo { id: "C26", engine: "e1p", rule: "seeded acyclic programs over persisted inputs / tracked structs / interned values / functions (q_noeq and q_lru are deliberately not persisted), histories with SnapshotRestore steps (serde_json round trip into a fresh database) at arbitrary points; non-trivial = at least one restore happened and a request was compared afterwards" },
+        "C23" => PropInfo { id: "C23", engine: "e1", rule: "histories of the single-handle classes (C01 C05 C06 C07 C09 C10 C11 C12 C13 C15; a third with one injected panic) executed under a quarantining, poisoning global allocator, with references returned by q_ref held across later requests and revalidated before the next mutable borrow; every 50th case is additionally executed twice more to measure live-byte growth after everything is dropped; non-trivial = blocks were quarantined during the run and at least one request followed a write" },
         "C22" => PropInfo { id: "C22", engine: "e1", rule: "fault enumeration: each generated base history (acyclic with structs/interning/accumulators, or cyclic with cycle_fn) is first run fault-free to count the user callbacks K by class (body op, V::eq, V::hash, cycle_fn, cycle_initial/cycle_result, event callback); then re-run with a panic injected at callback k for every k of the rare classes and a sample of body ops (<= 40 per base history). evaluation = one (history, k) pair; non-trivial = the fault fired, the panic reached the caller, the step was retried and at least one later request was compared" },
         "C07" => PropInfo { id: "C07", engine: "e1", rule: "seeded programs churning tracked structs and interned values (revisions=1..3, single shard) with functions keyed by them; non-trivial = a slot was observed with a bumped generation or an interned slot was reused" },
         "C10" => PropInfo { id: "C10", engine: "e1", rule: "seeded makers that conditionally specify q_spec for structs they create, consumers via returned handles, both request orders; non-trivial = request after write after request in a program that contains a Specify op and a Spec node" },
@@ -237,6 +238,29 @@ pub fn make_case(prop: &str, seed: u64, tier: Tier) -> Case {
 }
 
 pub fn make_case_e1(prop: &str, seed: u64, tier: Tier) -> Case {
+    if prop == "C23" {
+        // memory safety rides on the histories of the other single-handle classes (plus held
+        // references and one injected panic in a third of the runs), executed under the
+        // quarantining allocator
+        let mut r = Rng::new(seed ^ 0xC23);
+        let base = *r.pick(&["C01", "C01", "C05", "C07", "C09", "C10", "C11", "C12", "C13", "C15", "C06"]);
+        let mut c = make_case_e1(base, seed, tier);
+        c.class = format!("{base}:{}", c.class);
+        c.property = "C23".into();
+        // hold references of Ref nodes at random points
+        let refs: Vec<u16> = (0..c.prog.nodes.len()).filter(|i| c.prog.nodes[*i].kind == Kind::Ref).map(|i| i as u16).collect();
+        if !refs.is_empty() {
+            let k = r.range(1, 4);
+            for _ in 0..k {
+                let pos = r.usize(c.hist.len() + 1);
+                c.hist.insert(pos, Step::Hold { n: *r.pick(&refs) });
+            }
+        }
+        if r.pct(33) {
+            c.panic_at = Some(r.below(120));
+        }
+        return c;
+    }
     let mut r = Rng::new(seed ^ crate::rng::hash_str(0, prop));
     let mut g = GenCfg::base();
     let mut h = HistCfg::base();
@@ -647,6 +671,7 @@ pub fn nontrivial(case: &Case, out: &RunOut) -> bool {
         "C05" => base && (st("lru_evicted_value_recomputed") > 0 || st("lru_bound_checked_at_capacity") > 0),
         "C08" | "C09" => base && (st("intern_reuse_checked") > 0 || st("intern_identity_kept") > 0),
         "C26" => st("restores") > 0 && st("ev_did_validate_memo") + st("ev_will_execute") > 0,
+        "C23" => st("blocks_quarantined") > 0 && st("ev_will_execute") > 0,
         "C22" => st("faults_fired") > 0 && st("fault_step_retried") > 0,
         "C12" => base && st("cycle_iterations") > 0,
         "C13" => base && st("cycles_finalized") > 0,
